@@ -327,7 +327,7 @@ Definition operand_prog (z : operand) : Prop := match z with OVar v => is_prog v
 Definition same_layout (dst src : arr) : Prop :=
   esz dst = esz src /\ forall i, cell_ok dst i -> cell_ok src i.
 
-Definition hop_ok (o : ahop) : Prop :=
+Definition hop_ok (rs : list ast) (o : ahop) : Prop :=
   match o with
   | AAssign _ x e => is_prog x /\ le_prog e
   | AArith _ _ x y z => is_prog x /\ is_prog y /\ operand_prog z
@@ -335,7 +335,9 @@ Definition hop_ok (o : ahop) : Prop :=
   | AForget _ vs | AProject _ vs => forall v, In v vs -> avar_prog v
   | AForget1 _ v => avar_prog v
   | AExpand _ (VS x) (VS y) => is_prog x /\ is_prog y
-  | AExpand _ (VA a) (VA b) => same_layout b a
+  | AExpand r (VA a) (VA b) =>
+    (* the new variable of expand is fresh: nothing is recorded about it *)
+    same_layout b a /\ forall k, la_at (a_la (aget rs r)) b <> BConst k
   | AExpand _ _ _ => True
   | ARename _ _ _ => False
   | AInit _ _ e _ _ val => le_prog e /\ le_prog val
@@ -610,6 +612,308 @@ Proof.
   apply (lget_filter_key (fun b => existsb (N.eqb b) keep)) in E. destruct E as [E F].
   rewrite E. split; auto.
   apply existsb_exists in F. destruct F as (b & Ib & Eb). apply N.eqb_eq in Eb. subst b. auto.
+Qed.
+
+Lemma s_project_sound vs st s mu s1 mu1 : G st (s, mu) ->
+  (forall v, In v vs -> avar_prog v) ->
+  (forall x, In (VS x) vs -> s1 x = s x) ->
+  (forall a i, In (VA a) vs -> mu1 a i = mu a i) ->
+  G (s_project vs st) (s1, mu1).
+Proof.
+  intros HG PV HS HM. pose proof HG as (L & S & (s' & Gs & A) & C).
+  unfold s_project. destruct (project_scan vs (a_la st) [] []) as [kv ka] eqn:E.
+  destruct (project_scan_spec vs _ _ _ _ _ E) as [P1 P2].
+  assert (NB : la_project (a_la st) ka <> LBot).
+  { destruct (a_la st); simpl; congruence. }
+  apply (G_step st s mu _ _ s1 mu1 (fun s0 => mix s1 s0)); auto.
+  - intros a k H. apply la_project_const in H. apply S. tauto.
+  - intros s0 G0 A0. split; [|intros x P; apply mix_prog; auto].
+    eapply e_project_sound; eauto. intros k I.
+    destruct (P1 k I) as [[]|[J|(b & Eb & J)]].
+    + assert (Pk : is_prog k) by (apply (PV _ J)).
+      rewrite mix_prog by auto. rewrite HS, A0; auto.
+    + subst k. apply mix_nonprog. apply ghost_not_prog.
+  - intros a k i v La O M. apply la_project_const in La. destruct La as [La I].
+    destruct (P2 a I) as [[]|J]. rewrite HM in M by auto.
+    exists (upd s' (ghost a) v). split; [|split].
+    + eapply G_cell_store; eauto.
+    + apply agree_upd_nonprog; auto. apply ghost_not_prog.
+    + rewrite mix_nonprog by apply ghost_not_prog. apply upd_same.
+Qed.
+
+(* ---- expand ---- *)
+Lemma s_expand_scalar_sound x y st s mu : G st (s, mu) -> is_prog x -> is_prog y ->
+  G (s_expand (VS x) (VS y) st) (upd s y (s x), mu).
+Proof.
+  intros HG Px Py. simpl.
+  apply (G_base_op st s mu _ _ (fun s0 => upd s0 y (s0 x))); auto.
+  - intros s0 G0 A0. split.
+    + apply d_expand_sound; auto. exists s0. auto.
+    + rewrite (A0 x Px). apply agree_upd; auto.
+  - intros s0 a. apply upd_other. apply not_eq_sym. apply prog_not_ghost; auto.
+Qed.
+
+Lemma s_expand_array_sound a b st s mu mu1 : G st (s, mu) -> same_layout b a ->
+  (forall k, la_at (a_la st) b <> BConst k) ->
+  same_mem_but b mu1 mu -> (forall i, mu1 b i = mu a i) ->
+  G (s_expand (VA a) (VA b) st) (s, mu1).
+Proof.
+  intros HG [SZ LO] FR HM HB. pose proof HG as (L & S & (s' & Gs & A) & C). simpl.
+  destruct (la_at (a_la st) a) as [|ka|] eqn:La.
+  - exfalso. destruct (a_la st); simpl in La; try congruence. destruct (lget m a); discriminate.
+  - apply (G_step st s mu _ _ s mu1 (fun s0 => upd s0 (ghost b) (s0 (ghost a)))); auto.
+    + apply la_set_not_bot; auto.
+    + intros c k H. rewrite la_at_set in H by auto. destruct (N.eqb_spec b c); [|auto].
+      inversion H; subst. rewrite SZ. apply (S a); auto.
+    + intros s0 G0 A0. split.
+      * apply d_expand_sound; auto. exists s0. auto.
+      * apply agree_upd_nonprog; auto. apply ghost_not_prog.
+    + intros c k i v Lc O M. rewrite la_at_set in Lc by auto. destruct (N.eqb_spec b c).
+      * subst c. rewrite HB in M. exists (upd s' (ghost a) v). split; [|split].
+        -- eapply G_cell_store; eauto.
+        -- apply agree_upd_nonprog; auto. apply ghost_not_prog.
+        -- rewrite upd_same. apply upd_same.
+      * rewrite HM in M by auto. exists (upd s' (ghost c) v). split; [|split].
+        -- eapply G_cell_store; eauto.
+        -- apply agree_upd_nonprog; auto. apply ghost_not_prog.
+        -- rewrite upd_other by (intros X; apply ghost_inj in X; congruence). apply upd_same.
+  - (* unknown size: the code does nothing; nothing is claimed about b because the new
+       variable of expand is fresh (hypothesis FR: documented use "make a NEW copy") *)
+    replace st with (mkA (a_la st) (a_base st)) by (destruct st; auto).
+    apply (G_step st s mu _ _ s mu1 (fun s0 => s0)); auto.
+    intros c k i v Lc O M. destruct (N.eq_dec c b) as [->|N].
+    + exfalso. cbn [a_la] in Lc. eapply FR; eauto.
+    + rewrite HM in M by auto. exists (upd s' (ghost c) v). split; [|split].
+      * eapply G_cell_store; eauto.
+      * apply agree_upd_nonprog; auto. apply ghost_not_prog.
+      * apply upd_same.
+Qed.
+
+(* ---- array operations ---- *)
+Lemma G_intro l' b' s1 mu1 :
+  l' <> LBot ->
+  (forall a k, la_at l' a = BConst k -> k = esz a) ->
+  (exists w, genv b' w /\ agree w s1) ->
+  (forall a k i v, la_at l' a = BConst k -> cell_ok a i -> mu1 a i = Some v ->
+                   exists w, genv b' w /\ w (ghost a) = v) ->
+  G (mkA l' b') (s1, mu1).
+Proof.
+  intros L S W C. split; auto. split; auto. split; auto.
+  intros a k i v La O M. cbn [a_la a_base snd] in *.
+  destruct (C a k i v La O M) as (w & Gw & E). rewrite <- E. apply e_at_sound; auto.
+Qed.
+
+Lemma eval_le_var g s : eval_le (le_var g) s = s g.
+Proof. unfold eval_le, le_var. cbn [eval_terms le_terms le_cst]. lia. Qed.
+
+Lemma la_at_bbot_inv l a : la_at l a = BBot -> l = LBot.
+Proof. destruct l as [|m]; auto. simpl. destruct (lget m a); discriminate. Qed.
+
+Lemma s_array_init_sound a e val st st' s mu mu1 : G st (s, mu) -> le_prog e -> le_prog val ->
+  eval_le e s = esz a -> s_array_init a e val st = Some st' ->
+  same_mem_but a mu1 mu -> (forall i v, mu1 a i = Some v -> v = eval_le val s) ->
+  G st' (s, mu1).
+Proof.
+  intros HG Pe Pv SZ H HM HA. pose proof HG as (L & S & (s' & Gs & A) & C).
+  unfold s_array_init in H. destruct (check_elem_size e (a_base st)) as [k|] eqn:CK; [|discriminate].
+  inversion H; subst st'. clear H.
+  pose proof (check_elem_size_sound _ _ _ _ _ HG Pe CK) as EK.
+  apply (G_step st s mu _ _ s mu1 (fun s0 => upd s0 (ghost a) (eval_le val s0))); auto.
+  - apply la_set_not_bot; auto.
+  - intros c kc H. rewrite la_at_set in H by auto. destruct (N.eqb_spec a c); [|auto].
+    inversion H; subst. congruence.
+  - intros s0 G0 A0. split; [apply d_assign_sound; auto|].
+    apply agree_upd_nonprog; auto. apply ghost_not_prog.
+  - intros c kc i v Lc O M. rewrite la_at_set in Lc by auto. destruct (N.eqb_spec a c).
+    + subst c. exists s'. split; auto. split; auto. rewrite upd_same.
+      rewrite (eval_le_agree val s' s) by auto. symmetry. eapply HA; eauto.
+    + rewrite HM in M by auto. exists (upd s' (ghost c) v). split; [|split].
+      * eapply G_cell_store; eauto.
+      * apply agree_upd_nonprog; auto. apply ghost_not_prog.
+      * rewrite upd_other by (intros X; apply ghost_inj in X; congruence). apply upd_same.
+Qed.
+
+Lemma s_array_load_sound lhs a e st st' s mu i v : G st (s, mu) -> is_prog lhs -> le_prog e ->
+  eval_le e s = esz a -> cell_ok a i -> mu a i = Some v ->
+  s_array_load lhs a e st = Some st' -> G st' (upd s lhs v, mu).
+Proof.
+  intros HG Pl Pe SZ O M H. pose proof HG as (L & S & (s' & Gs & A) & C).
+  unfold s_array_load in H. destruct (check_elem_size e (a_base st)) as [k|] eqn:CK; [|discriminate].
+  destruct (equal_size (a_la st) a k) eqn:EQ; inversion H; subst st'; clear H.
+  - apply equal_size_spec in EQ.
+    assert (CV : gamma (e_at (a_base st) (ghost a)) v) by (eapply (C a k i v); eauto).
+    apply (G_step st s mu _ _ (upd s lhs v) mu
+             (fun s0 => upd (upd (upd s0 (gcopy a) v) lhs v) (gcopy a) (s0 (gcopy a)))); auto.
+    + intros s0 G0 A0. split.
+      * apply e_forget_sound.
+        assert (G1 : genv (d_expand (ghost a) (gcopy a) (a_base st)) (upd s0 (gcopy a) v)).
+        { apply d_expand_sound; auto. exists (upd s0 (ghost a) v). split; [apply genv_upd; auto|].
+          split; [intros k0 N; apply upd_other; auto|rewrite upd_same; auto]. }
+        pose proof (d_assign_sound lhs (le_var (gcopy a)) _ _ G1) as G2.
+        rewrite eval_le_var, upd_same in G2. exact G2.
+      * intros x Px. rewrite upd_other by (apply prog_not_gcopy; auto).
+        destruct (N.eq_dec x lhs) as [->|N]; [rewrite !upd_same; auto|].
+        rewrite (upd_other _ lhs) by auto. rewrite (upd_other s lhs) by auto.
+        rewrite upd_other by (apply prog_not_gcopy; auto). apply A0; auto.
+    + intros c kc i' v' Lc O' M'. exists (upd s' (ghost c) v'). split; [|split].
+      * eapply G_cell_store; eauto.
+      * apply agree_upd_nonprog; auto. apply ghost_not_prog.
+      * rewrite upd_other by apply ghost_not_gcopy.
+        rewrite upd_other by (apply not_eq_sym; apply prog_not_ghost; auto).
+        rewrite upd_other by apply ghost_not_gcopy. apply upd_same.
+  - apply (G_step st s mu _ _ (upd s lhs v) mu (fun s0 => upd s0 lhs v)); auto.
+    + intros s0 G0 A0. split; [apply e_forget_sound; auto|apply agree_upd; auto].
+    + intros c kc i' v' Lc O' M'. exists (upd s' (ghost c) v'). split; [|split].
+      * eapply G_cell_store; eauto.
+      * apply agree_upd_nonprog; auto. apply ghost_not_prog.
+      * rewrite upd_other by (apply not_eq_sym; apply prog_not_ghost; auto). apply upd_same.
+Qed.
+
+(* a weak update of the ghost of [a]: the cells of the other arrays and the old cells of [a]
+   are kept, the new value is added *)
+Lemma weak_update_sound a val st s mu mu1 k : G st (s, mu) -> le_prog val ->
+  la_at (a_la st) a = BConst k ->
+  same_mem_but a mu1 mu -> (forall i, mu1 a i = mu a i \/ mu1 a i = Some (eval_le val s)) ->
+  G (mkA (a_la st) (d_weak_assign (ghost a) val (a_base st))) (s, mu1).
+Proof.
+  intros HG Pv La HM HA. pose proof HG as (L & S & (s' & Gs & A) & C).
+  apply G_intro; auto.
+  - exists s'. split; auto. apply d_weak_assign_sound; auto.
+  - intros c kc i v Lc O M. destruct (N.eq_dec c a) as [->|N].
+    + destruct (HA i) as [E|E]; rewrite E in M.
+      * exists (upd s' (ghost a) v). split; [|apply upd_same].
+        apply d_weak_assign_sound. eapply G_cell_store; eauto.
+      * inversion M; subst v. exists (upd s' (ghost a) (eval_le val s')). split.
+        -- apply d_weak_assign_sound; auto.
+        -- rewrite upd_same. apply eval_le_agree; auto.
+    + rewrite HM in M by auto. exists (upd s' (ghost c) v). split; [|apply upd_same].
+      apply d_weak_assign_sound. eapply G_cell_store; eauto.
+Qed.
+
+(* a store that the domain ignores because the size of the array is unknown *)
+Lemma ignored_update_sound a st s mu mu1 : G st (s, mu) ->
+  (forall k, la_at (a_la st) a <> BConst k) -> same_mem_but a mu1 mu ->
+  G (mkA (a_la st) (a_base st)) (s, mu1).
+Proof.
+  intros HG NC HM. pose proof HG as (L & S & (s' & Gs & A) & C).
+  apply G_intro; auto.
+  - exists s'. auto.
+  - intros c kc i v Lc O M. destruct (N.eq_dec c a) as [->|N]; [exfalso; eapply NC; eauto|].
+    rewrite HM in M by auto. exists (upd s' (ghost c) v). split; [|apply upd_same].
+    eapply G_cell_store; eauto.
+Qed.
+
+Lemma s_array_store_sound a e idx val strong st st' s mu mu1 : G st (s, mu) ->
+  le_prog e -> le_prog val -> eval_le e s = esz a ->
+  (strong = true -> onecell a = Some idx) ->
+  same_mem_but a mu1 mu ->
+  (forall i, mu1 a i = if i =? idx then Some (eval_le val s) else mu a i) ->
+  s_array_store a e val strong st = Some st' -> G st' (s, mu1).
+Proof.
+  intros HG Pe Pv SZ ST HM HA H. pose proof HG as (L & S & (s' & Gs & A) & C).
+  unfold s_array_store in H. destruct (check_elem_size e (a_base st)) as [k|] eqn:CK; [|discriminate].
+  pose proof (check_elem_size_sound _ _ _ _ _ HG Pe CK) as EK.
+  destruct strong.
+  - assert (EQ : equal_size (la_set (a_la st) a k) a k = true).
+    { apply equal_size_spec. rewrite la_at_set by auto. rewrite N.eqb_refl. auto. }
+    rewrite EQ in H. inversion H; subst st'; clear H.
+    specialize (ST eq_refl).
+    apply (G_step st s mu _ _ s mu1 (fun s0 => upd s0 (ghost a) (eval_le val s0))); auto.
+    + apply la_set_not_bot; auto.
+    + intros c kc Hc. rewrite la_at_set in Hc by auto. destruct (N.eqb_spec a c); [|auto].
+      inversion Hc; subst. congruence.
+    + intros s0 G0 A0. split; [apply d_assign_sound; auto|].
+      apply agree_upd_nonprog; auto. apply ghost_not_prog.
+    + intros c kc i v Lc O M. rewrite la_at_set in Lc by auto. destruct (N.eqb_spec a c).
+      * subst c. unfold cell_ok in O. rewrite ST in O. subst i. rewrite HA, Z.eqb_refl in M.
+        inversion M; subst v. exists s'. split; auto. split; auto. rewrite upd_same.
+        apply eval_le_agree; auto.
+      * rewrite HM in M by auto. exists (upd s' (ghost c) v). split; [|split].
+        -- eapply G_cell_store; eauto.
+        -- apply agree_upd_nonprog; auto. apply ghost_not_prog.
+        -- rewrite upd_other by (intros X; apply ghost_inj in X; congruence). apply upd_same.
+  - destruct (equal_size (a_la st) a k) eqn:EQ; inversion H; subst st'; clear H.
+    + apply equal_size_spec in EQ. eapply weak_update_sound; eauto.
+      intros i. rewrite HA. destruct (i =? idx); auto.
+    + eapply ignored_update_sound; eauto. intros k' Hk.
+      assert (k' = k) by (rewrite (S a k' Hk); congruence). subst k'.
+      apply equal_size_spec in Hk. congruence.
+Qed.
+
+Lemma s_array_store_range_sound a e val st st' s mu mu1 : G st (s, mu) ->
+  le_prog e -> le_prog val -> eval_le e s = esz a ->
+  same_mem_but a mu1 mu -> (forall i, mu1 a i = mu a i \/ mu1 a i = Some (eval_le val s)) ->
+  s_array_store_range a e val st = Some st' -> G st' (s, mu1).
+Proof.
+  intros HG Pe Pv SZ HM HA H. pose proof HG as (L & S & _).
+  unfold s_array_store_range in H. destruct (check_elem_size e (a_base st)) as [k|] eqn:CK; [|discriminate].
+  pose proof (check_elem_size_sound _ _ _ _ _ HG Pe CK) as EK.
+  destruct (equal_size (a_la st) a k) eqn:EQ; inversion H; subst st'; clear H.
+  - apply equal_size_spec in EQ. eapply weak_update_sound; eauto.
+  - replace st with (mkA (a_la st) (a_base st)) by (destruct st; auto).
+    eapply ignored_update_sound; eauto. intros k' Hk.
+    assert (k' = k) by (rewrite (S a k' Hk); congruence). subst k'.
+    apply equal_size_spec in Hk. congruence.
+Qed.
+
+Lemma s_array_assign_sound lhs rhs st s mu mu1 : G st (s, mu) -> same_layout lhs rhs ->
+  same_mem_but lhs mu1 mu -> (forall i, mu1 lhs i = mu rhs i) ->
+  G (s_array_assign lhs rhs st) (s, mu1).
+Proof.
+  intros HG [SZ LO] HM HL. pose proof HG as (L & S & (s' & Gs & A) & C).
+  unfold s_array_assign. destruct (la_at (a_la st) rhs) as [|k|] eqn:La.
+  - apply la_at_bbot_inv in La. congruence.
+  - apply (G_step st s mu _ _ s mu1 (fun s0 => upd s0 (ghost lhs) (s0 (ghost rhs)))); auto.
+    + apply la_set_not_bot; auto.
+    + intros c kc H. rewrite la_at_set in H by auto. destruct (N.eqb_spec lhs c); [|auto].
+      inversion H; subst. rewrite SZ. apply (S rhs); auto.
+    + intros s0 G0 A0. split.
+      * pose proof (d_assign_sound (ghost lhs) (le_var (ghost rhs)) _ _ G0) as G1.
+        rewrite eval_le_var in G1. exact G1.
+      * apply agree_upd_nonprog; auto. apply ghost_not_prog.
+    + intros c kc i v Lc O M. rewrite la_at_set in Lc by auto. destruct (N.eqb_spec lhs c).
+      * subst c. rewrite HL in M. exists (upd s' (ghost rhs) v). split; [|split].
+        -- eapply G_cell_store; eauto.
+        -- apply agree_upd_nonprog; auto. apply ghost_not_prog.
+        -- rewrite upd_same. apply upd_same.
+      * rewrite HM in M by auto. exists (upd s' (ghost c) v). split; [|split].
+        -- eapply G_cell_store; eauto.
+        -- apply agree_upd_nonprog; auto. apply ghost_not_prog.
+        -- rewrite upd_other by (intros X; apply ghost_inj in X; congruence). apply upd_same.
+  - apply (s_forget1_sound (VA lhs) st s mu); simpl; auto.
+    intros a i N. apply HM. congruence.
+Qed.
+
+(* ---- lattice operations ---- *)
+Lemma G_union (op : env -> env -> env) X Y c :
+  (forall a b s, genv a s \/ genv b s -> genv (op a b) s) ->
+  G X c \/ G Y c ->
+  G (mkA (la_join (a_la X) (a_la Y)) (op (a_base X) (a_base Y))) c.
+Proof.
+  intros OP H. destruct c as [s mu]. destruct H as [HG|HG]; pose proof HG as (L & S & (s' & Gs & A) & C).
+  - apply G_intro.
+    + apply la_join_not_bot_l; auto.
+    + intros a k H. apply S. eapply la_join_const_l; eauto.
+    + exists s'. split; auto.
+    + intros a k i v La O M. apply la_join_const_l in La; auto.
+      exists (upd s' (ghost a) v). split; [|apply upd_same]. apply OP. left. eapply G_cell_store; eauto.
+  - apply G_intro.
+    + apply la_join_not_bot_r; auto.
+    + intros a k H. apply S. eapply la_join_const_r; eauto.
+    + exists s'. split; auto.
+    + intros a k i v La O M. apply la_join_const_r in La; auto.
+      exists (upd s' (ghost a) v). split; [|apply upd_same]. apply OP. right. eapply G_cell_store; eauto.
+Qed.
+
+Lemma s_join_sound X Y c : G X c \/ G Y c -> G (s_join X Y) c.
+Proof. apply G_union. apply e_join_sound. Qed.
+Lemma s_widen_sound X Y c : G X c \/ G Y c -> G (s_widen X Y) c.
+Proof. apply G_union. apply e_widen_sound. Qed.
+Lemma s_widen_thr_sound ths X Y c : G X c \/ G Y c -> G (s_widen_thr ths X Y) c.
+Proof.
+  apply G_union. intros a b s. apply e_widen_thr_sound.
+  - intros v. apply thr_prev_le. apply mk_thresholds_wf.
+  - intros v. apply thr_next_ge. apply mk_thresholds_wf.
 Qed.
 
 End Smash.
